@@ -23,6 +23,13 @@ Definition n_fsm (n : node) : N := N.of_nat (length (n_done n)).
 Definition n_commit (n : node) : N := n_fsm n + N.of_nat (length (n_todo n)).
 Definition n_log (n : node) : list (option kind) := n_done n ++ n_todo n ++ n_rest n.
 
+(* what fsmTarget (the ReadyTarget linearizable reads subscribe to) has recorded: fsmApply and
+   fsmRestore call fsmTarget.Signal(index) right after fsmIdx.Store(index), whether or not
+   anybody is subscribed at that moment, so the recorded target is the FSM index.  A read that
+   subscribes after the FSM passed its target relies on exactly this ("a signal without a
+   waiter must still be remembered"). *)
+Definition n_target (n : node) : N := n_fsm n.
+
 Definition okind_is_cmd (k : option kind) : bool :=
   match k with Some k => is_cmd k | None => false end.
 
@@ -94,7 +101,8 @@ Record case := {
   c_srt : N;
   c_leader : bool;
   c_ready : bool;
-  c_seen : read_seen
+  c_seen : read_seen;
+  c_target : comparison   (* fsmTarget's recorded value compared with fsmIdx, system quiet: Eq | Lt | Gt *)
 }.
 
 (* the read as the model predicts it: the FSM applies the committed commands (no further
@@ -103,7 +111,7 @@ Definition predict (c : case) : read_seen :=
   let n := c_node c in
   let o := {| lo_term := c_term c; lo_srt := c_srt c; lo_leader := c_leader c; lo_ready := c_ready c;
               lo_commit := n_commit n; lo_verify := VOk; lo_term_after := c_term c;
-              lo_fsm_idx := n_fsm n; lo_kinds := n_todo n; lo_reached := n_fsm (drained n) |} in
+              lo_fsm_idx := n_fsm n; lo_kinds := n_todo n; lo_reached := n_target (drained n) |} in
   match wait_lin o with
   | LinOk => RLocal
   | LinStrongNeeded => if c_leader c && c_ready c then RUpgraded else
@@ -125,4 +133,9 @@ Definition seen_eqb (a b : read_seen) : bool :=
   | _, _ => false
   end.
 
-Definition check_case (c : case) : bool := seen_eqb (predict c) (c_seen c).
+Definition comparison_eqb (a b : comparison) : bool :=
+  match a, b with Eq, Eq | Lt, Lt | Gt, Gt => true | _, _ => false end.
+
+Definition check_case (c : case) : bool :=
+  seen_eqb (predict c) (c_seen c)
+  && comparison_eqb (N.compare (n_target (c_node c)) (n_fsm (c_node c))) (c_target c).
